@@ -978,8 +978,8 @@ impl Engine for RtSim {
     }
     fn budget(_: &str, tier: Tier) -> (u64, u64) {
         match tier {
-            Tier::Quick => (12_000, 60),
-            Tier::Thorough => (600_000, 600),
+            Tier::Quick => (40_000, 60),
+            Tier::Thorough => (2_000_000, 600),
         }
     }
     fn gen_config(prop: &str, _tier: Tier, rng: &mut Rng) -> Config {
